@@ -164,6 +164,56 @@ def contracted_loops(spec, unit, scratch):
     return out
 
 
+
+CACHE_DIR = os.path.join(VERIF, ".vpcache")
+_TOOLVER = None
+
+
+def _toolver():
+    global _TOOLVER
+    if _TOOLVER is None:
+        try:
+            _TOOLVER = subprocess.check_output(["cbmc", "--version"]).decode().strip()
+        except Exception:
+            _TOOLVER = "?"
+    return _TOOLVER
+
+
+def cache_key(spec, unit, scratch, tu, iquote, tier):
+    """Content hash of EVERYTHING the decision of a unit depends on: the bytes of every file the
+    translation unit includes (found with gcc -M under the unit's own flags: the woven copy of the
+    real /repo source, nng headers, contracts, stubs, harness, system headers), the unit and module
+    spec, compile flags, tier, this engine and the cbmc version.  A unit whose key is unchanged was
+    decided on byte-identical inputs, so a previous SUCCESS is reused when several properties share
+    a unit (./check C03 after ./check C17).  Failures, undecided results and trace runs are never
+    cached.  VP_NO_CACHE=1 disables it; the cache directory is not committed."""
+    if os.environ.get("VP_NO_CACHE"):
+        return None
+    import hashlib
+    fl = flags(unit.get("asserts_pass", False))
+    cmd = ["gcc", "-M", "-w"] + fl + sum((["-iquote", d] for d in iquote), []) + [tu]
+    try:
+        out = subprocess.run(cmd, stdout=subprocess.PIPE, stderr=subprocess.PIPE, timeout=120)
+        if out.returncode != 0:
+            return None
+        deps = out.stdout.decode().replace("\\\n", " ").split()[1:]
+    except Exception:
+        return None
+    h = hashlib.sha256()
+    norm = lambda t: t.replace(scratch.dir, "$S")
+    for d in sorted(set(os.path.realpath(x) for x in deps), key=norm):
+        try:
+            data = open(d, "rb").read()
+        except Exception:
+            return None
+        if d.startswith(scratch.dir):
+            data = norm(data.decode(errors="replace")).encode()
+        h.update(norm(d).encode() + b"\0" + hashlib.sha256(data).digest())
+    sp = {k: v for k, v in spec.items() if k not in ("_dir", "units")}
+    h.update(json.dumps([sp, unit, fl, tier, _toolver(), MEM_LIMIT], sort_keys=True, default=str).encode())
+    h.update(open(os.path.abspath(__file__), "rb").read())
+    return h.hexdigest()
+
 def run_unit(spec, unit, scratch, tier="quick", trace=False):
     """Returns a result dict for the unit."""
     log = []
@@ -178,6 +228,19 @@ def run_unit(spec, unit, scratch, tier="quick", trace=False):
     except weaver.WeaveError as e:
         res["reason"] = "extraction break: %s" % e
         return res
+    ckey = None if trace else cache_key(spec, unit, scratch, tu, iquote, tier)
+    res["_cache_key"] = ckey
+    if ckey:
+        cp = os.path.join(CACHE_DIR, ckey + ".json")
+        if os.path.exists(cp):
+            try:
+                old = json.load(open(cp))
+                if old.get("status") == "ok":
+                    old["reused"] = {"from_run_at": old.get("_decided_at"), "content_key": ckey[:16]}
+                    old["secs"] = round(time.time() - t0, 2)
+                    return old
+            except Exception:
+                pass
     base = tu[:-5]
     gb0, gb1, gb2 = base + ".0.gb", base + ".1.gb", base + ".2.gb"
     entry = unit["entry"]
@@ -360,6 +423,16 @@ def run_unit(spec, unit, scratch, tier="quick", trace=False):
         res["reason"] = "vacuity: canary after the call is unreachable (contradictory precondition?) canary=%s" % canary
         return res
     res["status"] = "ok"
+    if res.get("_cache_key") and not trace:
+        try:
+            os.makedirs(CACHE_DIR, exist_ok=True)
+            res["_decided_at"] = time.strftime("%Y-%m-%d %H:%M:%S")
+            keep = {k: v for k, v in res.items() if k != "raw_results"}
+            tmp = os.path.join(CACHE_DIR, "%s.%d.tmp" % (res["_cache_key"], os.getpid()))
+            json.dump(keep, open(tmp, "w"))
+            os.replace(tmp, os.path.join(CACHE_DIR, res["_cache_key"] + ".json"))
+        except Exception:
+            pass
     return res
 
 
